@@ -215,10 +215,11 @@ func VH_C09_roundtrip() {
 	vAssert(m2.Length() == 1, "restored-map-has-the-same-keys")
 }
 
-//vh:prop=C09 tiers=quick,thorough sigkeys=shape depth_is_violation=1 maxdepth=3000 budget_s=600 bounds="all reference-cycle shapes over <= 2 container nodes (array in itself, dict in itself, array<->dict, computed attribute holding its owner's container) and non-finite floats: ToJSON returns an error; it never crashes (stack exhaustion counts) and never returns a document"
+//vh:prop=C09 tiers=quick,thorough sigkeys=shape,wrap depth_is_violation=1 maxdepth=3000 budget_s=600 bounds="all reference-cycle shapes over <= 2 container nodes (array in itself, dict in itself, array<->dict, computed attribute holding its owner's container) and non-finite floats (+Inf, -Inf, NaN; alone, in arrays, nested arrays, dicts, arrays in dicts, computed attributes, mixed arrays and as a VM variable): ToJSON returns an error; it never crashes (stack exhaustion counts) and never returns a document"
 func VH_C09_cycle() {
 	var v *VMValue
-	switch vChoice("shape", 7) {
+	shape := vChoice("shape", 7)
+	switch shape {
 	case 0:
 		v = NewArrayVal()
 		ad, _ := v.ReadArray()
@@ -241,10 +242,48 @@ func VH_C09_cycle() {
 		inner := NewDictVal(nil).V()
 		inner.MustReadDictData().Dict.Store("up", v)
 		v.MustReadDictData().Dict.Store("down", inner)
-	case 5:
-		v = NewFloatVal(vInf())
-	case 6:
-		v = NewFloatVal(vNaN())
+	case 5, 6:
+		// a non-finite float (scripts build them with 10.0 ** 400), alone or
+		// somewhere inside a container
+		x := NewFloatVal(vInf())
+		if shape == 6 {
+			x = NewFloatVal(vNaN())
+		}
+		if vChoice("neg", 2) == 1 && shape == 5 {
+			x = NewFloatVal(-vInf())
+		}
+		switch vChoice("wrap", 8) {
+		case 0:
+			v = x
+		case 1:
+			v = NewArrayVal(NewIntVal(1), x)
+		case 2:
+			v = NewArrayVal(NewArrayVal(x))
+		case 3:
+			d := NewDictVal(nil).V()
+			d.MustReadDictData().Dict.Store("k", x)
+			v = d
+		case 4:
+			d := NewDictVal(nil).V()
+			d.MustReadDictData().Dict.Store("k", NewArrayVal(x, NewFloatVal(1.5)))
+			v = d
+		case 5:
+			cd := &ComputedData{Expr: "this.a", Attrs: &ValueMap{}}
+			cd.Attrs.Store("a", NewArrayVal(x))
+			v = NewComputedValRaw(cd)
+		case 6:
+			v = NewArrayVal(NewFloatVal(2.5), NewStrVal("s"), NewArrayVal(NewIntVal(3), x))
+		case 7:
+			// as a variable of a VM
+			m := &ValueMap{}
+			m.Store("ok", NewIntVal(1))
+			m.Store("bad", NewArrayVal(x))
+			data, err := m.ToJSON()
+			vReach("returned")
+			vAssert(err != nil, "unrepresentable-value-is-an-error")
+			vAssert(err == nil || data == nil, "no-document-on-error")
+			return
+		}
 	}
 	data, err := v.ToJSON()
 	vReach("returned")
